@@ -356,6 +356,45 @@ def gen_cpx(rng):
     return cpx_case(names, kinds, order, indiv=rng.choice([0, 0, 1]))
 
 
+def width_corpus():
+    """deterministic: type-width change in both directions (float/u64 <-> double/u32 and the other mixed pairs),
+    element counts 0..5 so that the DT2 -> IT2 re-basing needs its ceil-division padding (file types float/u64
+    with an odd number of DT2 words) and does not (even)"""
+    out = []
+    pairs = [((4, 8), (8, 4)), ((8, 4), (4, 8)), ((4, 4), (8, 8)), ((8, 8), (4, 4)), ((8, 8), (4, 8)),
+             ((4, 4), (4, 8)), ((8, 4), (8, 8)), ((4, 8), (8, 8))]
+    for (dt, it), (dt2, it2) in pairs:
+        for n in range(0, 6):
+            vals = [Fraction(2 * k + 1, 4) for k in range(n)]
+            idx = [3 * k + 1 for k in range(n)]
+            # raw: one scalar_dt word + one elements array of n words, two index arrays; also no scalar_dt
+            for nsd in (0, 1):
+                if n > 0:
+                    out.append("raw 4 4 %d %d %d %d %s %s 1 %s 2 %s %s" % (
+                        dt, it, dt2, it2, nl([n * n, n, n, n]), fl([Fraction(5, 8)] * nsd), fl(vals), nl(idx),
+                        nl(list(range(n + 1)))))
+            out.append("kind dv 0 %d %d %d %d %s" % (dt, it, dt2, it2, fl(vals)))
+            if n > 0:
+                out.append("kind sv 0 %d %d %d %d %d 1 %s %s" % (dt, it, dt2, it2, 20, nl(idx), fl(vals)))
+                rp = [0] + [min(k, n) for k in range(1, n + 1)] + [n, n]      # n rows with one entry, two empty rows
+                out.append("kind csr 0 %d %d %d %d %d %d 0 %s %s %s" % (
+                    dt, it, dt2, it2, n + 2, 7, nl(rp), nl([k % 7 for k in range(n)]), fl(vals)))
+                out.append("kind cscr 0 %d %d %d %d %d %d %s %s %s %s" % (
+                    dt, it, dt2, it2, 2 * n, 7, nl(list(range(n + 1))), nl([k % 7 for k in range(n)]), fl(vals),
+                    nl([2 * k for k in range(n)])))
+                out.append("kind bm 0 %d %d %d %d %d %d %s %s" % (dt, it, dt2, it2, n, 3, nl([n]), fl(vals)))
+            if n % 2 == 0:
+                out.append("kind dvb 0 %d %d %d %d %s" % (dt, it, dt2, it2, fl(vals)))
+    return out
+
+
+def gen_dfio(rng):
+    def blob():
+        n = rng.choice([0, 0, 1, 7, 8, 9, 39, 40, 41, 100, 1000])
+        return bytes(rng.randrange(256) for _ in range(n))
+    return "dfio %s %s" % (hexname(blob()), hexname(blob()))
+
+
 def gen_cases(rng, count):
     cases = []
     for _ in range(count):
@@ -368,6 +407,8 @@ def gen_cases(rng, count):
             cases.append(gen_txt(rng, True))
         elif k < 0.80:
             cases.append(gen_txt(rng, False))
+        elif k < 0.82:
+            cases.append(gen_dfio(rng))
         elif k < 0.87:
             cases.append(gen_cp(rng))
         else:
@@ -390,7 +431,8 @@ CORPUS = [
     "raw 3 3 4 8 8 4 3 1 2 3 1 1/2 1 1 3/4 1 1 7",
     "cp 2 b dv 2 1/1 2/1 a csr 2 2 0 3 0 1 1 1 1 1 5/1 2 1 0",
     "cp 1 a dv 0 1 0",
-] + cpx_corpus()
+    "dfio - -", "dfio 00 -", "dfio - ff", "dfio 0102030405060708 464541543343444600",
+] + cpx_corpus() + width_corpus()
 
 # Inputs on which the property FAILS on the current tree (genuine FEAT defects, see KNOWN_FINDINGS.json and
 # DESIGN.md section 8). They are executed and judged like every other input; each is matched against an *open*
@@ -398,9 +440,9 @@ CORPUS = [
 # of failing the run. The flag says whether the Lean model reproduces the outcome (then model and
 # implementation are compared as well).
 KNOWN_EDGE = [
-    ("txt dv exp 8 8 0", True, "F1"),                       # write_out(fm_exp) of a length-0 DenseVector throws
+    ("txt dv exp 8 8 0", True, "F1"),                       # length-0 DenseVector reads back with an extra size-0 array
     ("txt dvb exp 8 8 0", True, "F3"),                      # length-0 blocked vector reads back with an extra array
-    ("txt sv mtx 8 8 5 1 0 0", False, "F4"),                # empty SparseVector: fm_mtx round trip changes the layout
+    ("txt sv mtx 8 8 5 1 0 0", True, "F4"),                 # empty SparseVector reads back owning two size-0 arrays
     ("kind csr 0 8 8 8 8 3 3 0 4 0 0 0 0 0 0", False, "F5"),  # CSR(3,3): operator== dereferences a null row_ptr
     ("txt csr mtx 8 8 3 3 0 4 0 0 0 0 0 0", True, "F5"),    # CSR(3,3): write_out(fm_mtx) dereferences a null row_ptr
     ("txt csr mtx 8 8 0 0 0 1 0 0 0", False, "F5"),         # CSR(0,0) text round trip: operator== crashes
@@ -690,6 +732,22 @@ def oracle(case, out):
             if op == "txt" and eq != 1:
                 return "operator== reports the read-back %s as different" % kind
             return None
+        if op == "dfio":
+            sh, bf = (bytes.fromhex("" if x == "-" else x) for x in (a.tok(), a.tok()))
+            if is_abnormal(out):
+                return "write_combined/read_combined ended with " + out
+            o = Tk(out)
+            assert o.tok() == "F"
+            f = bytes.fromhex(o.tok())
+            assert o.tok() == "S"
+            s2 = o.tok()
+            assert o.tok() == "B"
+            b2 = o.tok()
+            if len(f) != 40 + len(sh) + len(bf) or struct.unpack("<Q", f[8:16])[0] != len(f):
+                return "combined file has %d bytes, header says %d" % (len(f), struct.unpack("<Q", f[8:16])[0])
+            if bytes.fromhex("" if s2 == "-" else s2) != sh or bytes.fromhex("" if b2 == "-" else b2) != bf:
+                return "shared/buffer data read back differ from what was written"
+            return None
         if op in ("cp", "cpx"):
             if op == "cpx":
                 a.nat()
@@ -748,6 +806,8 @@ def nontrivial(case):
         return int(t[1]) >= 2
     if op == "cpx":
         return int(t[2]) >= 2
+    if op == "dfio":
+        return t[1] != "-" or t[2] != "-"
     if op == "raw":
         a = Tk(case)
         a.tok(), a.nat(), a.nat()
@@ -782,6 +842,8 @@ def nontrivial(case):
 def describe(case):
     t = case.split()
     keys = ["op:" + t[0]]
+    if t[0] in ("raw", "kind") and t[5 if t[0] == "raw" else 5] == "4" and t[6] == "8":
+        keys.append("file-types:float/u64 (IT2 block may need padding)")
     if t[0] == "raw":
         keys.append("widths:%s%s->%s%s" % (t[3], t[4], t[5], t[6]))
         keys.append("mode-mismatch" if t[1] != t[2] else "mode-match")
